@@ -17,7 +17,7 @@
 (* "for_bound_not_live" (range(n) operand not counted as a use by liveness).                     *)
 EXTENDS Integers, Sequences, FiniteSets, TLC, Json
 
-CONSTANTS Deviations, MaxNodes, MinNodes, MaxDepth, MaxBlock, Rich, Tiny,
+CONSTANTS Deviations, MaxNodes, MinNodes, MaxDepth, MaxBlock, Rich, Tiny, Ops,
           Kinds          \* which control-flow statements a derivation may open: subset of {"if", "for", "while", "brk"}
 VARIABLES stack, nodes, stage, prog, ret, refused, res, info
 vars == <<stack, nodes, stage, prog, ret, refused, res, info>>
@@ -38,13 +38,18 @@ EAddC(a, c) == <<"addc", a, "", c>>
 EAdd(a, b) == <<"add", a, b, 0>>
 EMul(a, b) == <<"mul", a, b, 0>>
 ESub(a, b) == <<"sub", a, b, 0>>     \* a - b
+EModC(a, c) == <<"modc", a, "", c>>  \* a % c  (Python: sign of the divisor)
+ENeg(a) == <<"neg", a, "", 0>>       \* -a
+ECall2(a, b, c) == <<"call2", a, b, c>>   \* g(a, c, b) with  def g(x, k: int, y): return x * k + y   (attribute between tensors)
+EIdx(c) == <<"idx", "", "", c>>      \* op.Squeeze(v[c:c+1]) on the vector parameter v = [5, 7, 11] (Slice path of subscripting)
+VParam == <<5, 7, 11>>
 ELt(a, c) == <<"lt", a, "", c>>      \* a < c   (bool as 0/1)
 EGt(a, c) == <<"gt", a, "", c>>      \* a > c
 ECall(a) == <<"call", a, "", 0>>     \* h(a) = a*2 + 1, a script sub-function
 EAttr(a) == <<"attr", a, "", 0>>     \* a * alpha, alpha an attribute parameter (value 2)
 EC(c) == <<"c", "", "", c>>
 
-UsedE(e) == CASE e[1] = "c" -> {} [] e[1] \in {"add", "mul", "sub"} -> {e[2], e[3]} [] OTHER -> {e[2]}
+UsedE(e) == CASE e[1] \in {"c", "idx"} -> {} [] e[1] \in {"add", "mul", "sub", "call2"} -> {e[2], e[3]} [] OTHER -> {e[2]}
 EvalE(e, env) ==
   IF \E u \in UsedE(e) : env[u] = UNDEF THEN UNDEF
   ELSE CASE e[1] = "v" -> env[e[2]]
@@ -53,6 +58,10 @@ EvalE(e, env) ==
          [] e[1] = "add" -> env[e[2]] + env[e[3]]
          [] e[1] = "mul" -> env[e[2]] * env[e[3]]
          [] e[1] = "sub" -> env[e[2]] - env[e[3]]
+         [] e[1] = "modc" -> env[e[2]] % e[4]
+         [] e[1] = "neg" -> 0 - env[e[2]]
+         [] e[1] = "call2" -> env[e[2]] * e[4] + env[e[3]]
+         [] e[1] = "idx" -> VParam[e[4] + 1]
          [] e[1] = "lt" -> IF env[e[2]] < e[4] THEN 1 ELSE 0
          [] e[1] = "gt" -> IF env[e[2]] > e[4] THEN 1 ELSE 0
          [] e[1] = "call" -> env[e[2]] * 2 + 1
@@ -226,7 +235,8 @@ GExec(s, env, out, devs) ==
 AsgMenu == LET base == {EV("a"), EV("x"), EV("y"), EAddC("x", 1), EAddC("y", 1), EMul("x", "y"), EAdd("x", "a")}
                rich == {ECall("x"), EAttr("y"), EAddC("a", -1), EAddC("x", -1)} \cup {EAdd("y", stack[d].v) : d \in {d \in 1..Len(stack) : stack[d].k = "for"}}
                tiny == {EV("a"), EAddC("x", 1), EMul("x", "y"), EV("y")}     \* small alphabet for deeper exhaustive structure
-           IN [v : AVars, e : IF Tiny THEN tiny ELSE IF Rich THEN base \cup rich ELSE base]
+               ops == {EV("a"), EAddC("x", 1), EIdx(1), EIdx(2), ECall2("x", "y", 3), EModC("x", 3), ENeg("y")}   \* other operators / call forms
+           IN [v : AVars, e : IF Ops THEN ops ELSE IF Tiny THEN tiny ELSE IF Rich THEN base \cup rich \cup ops ELSE base]
 Bounds == {EV("n"), EV("x"), EC(2)}
 CondVars == {"a", "x", "y"}
 WhileConds == {ELt("x", 2), EGt("y", 0)}
